@@ -247,7 +247,7 @@ func raceSigs(stderr string) []string {
 			}
 			for _, l := range strings.Split(part, "\n") {
 				l = strings.TrimSpace(l)
-				if strings.HasPrefix(l, "github.com/internetarchive/Zeno/") {
+				if strings.HasPrefix(l, "github.com/internetarchive/Zeno/") && !strings.Contains(l, "Zeno/internal/verif/") && !strings.Contains(l, "Zeno/internal/pkg/verifhook") {
 					f := strings.TrimPrefix(l, "github.com/internetarchive/Zeno/")
 					if i := strings.Index(f, "("); i > 0 {
 						f = f[:i]
@@ -256,6 +256,10 @@ func raceSigs(stderr string) []string {
 					break
 				}
 			}
+		}
+		if len(frames) == 0 {
+			sigs = append(sigs, "harness-only")
+			continue
 		}
 		sigs = append(sigs, strings.Join(frames, " <-> "))
 	}
